@@ -74,6 +74,35 @@ def gen_plan(r, tier):
     return workers, failadd, steps, exp, k
 
 
+def burst_plans(r, tier):
+    """several clients connect while the event loop is busy (held inside the set-up hook of the first one): their arrivals
+    reach the edge-triggered listener as ONE readiness event, after which nothing more happens on the listener.  Every one
+    of them has a complete request waiting and must be served."""
+    out = []
+    for k in ([3, 4] if tier == "quick" else [2, 3, 4, 5, 6, 8]):
+        for workers in ([2] if tier == "quick" else [1, 2, 4]):
+            steps = ["H", "O0", "q1"] + ["O%d" % i for i in range(1, k)] + ["U"]
+            exp = []
+            order = list(range(k)); r.shuffle(order)
+            for i in order:
+                kd = r.choice(["p", "echo", "nf"])
+                steps += ["s%d:%s" % (i, hx(REQ[kd][0])), "r%d" % i]
+            exp = [None] * k
+            # (expected answers are filled per connection below)
+            for i in range(k):
+                pass
+            # recompute expectations in connection order
+            sent = {}
+            for st in steps:
+                if st.startswith("s"):
+                    i = int(st[1:].split(":")[0]); sent[i] = st.split(":")[1]
+            rev = {hx(v[0]): v[1] for v in REQ.values()}
+            exp = [[rev[sent[i]]] for i in range(k)]
+            steps += ["x%d" % i for i in range(k)] + ["z"]
+            out.append((workers, [], steps, exp, k))
+    return out
+
+
 def canon(ev, ports):
     """raw hook events -> model trace tokens (connection ids in accept order; WT hoisted to the dequeue point)"""
     port2c = {}
@@ -240,7 +269,7 @@ def run(pid):
         t = "thorough" if tier in ("thorough", "search") else "quick"
         r = rng_for(seed, "epoll")
         n = 40 if t == "quick" else 1500
-        plans = [gen_plan(r, t) for _ in range(n)]
+        plans = [gen_plan(r, t) for _ in range(n)] + burst_plans(r, t)
         lines = ["EPOLL w=%d failadd=%s plan=%s" % (w, ",".join(map(str, fa)) or "-", ",".join(st)) for w, fa, st, _, _ in plans]
         if replay is not None:
             lines = [replay["case"]]; plans = [None]
@@ -292,6 +321,19 @@ def run(pid):
                         why = "serve_epoll did not return after StopAccepting"
             if why and len(o.violations) < 20:
                 o.violations.append({"case": c, "impl": a[:400], "why": why})
+        if pid == "C15" and replay is None:
+            # descriptor re-use between a connection's close and the rest of its clean-up: every later connection is still served
+            # and every socket closed (a late EPOLL_CTL_DEL would deregister the NEXT connection that got the same number)
+            from . import serve as S
+            ls, wants = S.fd_reuse_lines(3 if t == "quick" else 30)
+            for c, a, w in zip(ls, C.run_sharded(ctx["kimpl"], ls, shards=min(C.NCPU, len(ls))), wants):
+                o.evaluations += 1
+                pz = a.split()
+                got = pz[1].split("/") if len(pz) >= 2 and pz[0] == "V" else None
+                if got != w and len(o.violations) < 20:
+                    j = next((x for x in range(len(w)) if got is None or x >= len(got) or got[x] != w[x]), 0)
+                    o.violations.append({"case": c, "impl": a[:400], "why": "a connection accepted while the previous one was being cleaned up (descriptor number re-used) was not served: connection %d got %s, expected %s"
+                                         % (j, (got[j] if got and j < len(got) else "-")[:60], w[j][:60])})
         model = C.run_sharded(ctx["kmodel"], [t_[1] for t_ in traces]) if ctx.get("have_model") else []
         ok = 0
         for (c, tl), m in zip(traces, model):
